@@ -307,6 +307,7 @@ type btr struct {
 	loop   *loopCtx
 	swK    []func(int) // continuations of the enclosing switch statements (for an unlabelled break)
 	inLoop bool
+	alias  map[string]sliceAlias // local name -> window of a slice variable
 }
 
 type loopCtx struct {
@@ -351,6 +352,7 @@ func (t *btr) hoist(rhs string) string {
 type snap struct {
 	ty, lean, errSt map[string]string
 	def             map[string]bool
+	alias           map[string]sliceAlias
 }
 
 func cp[V any](m map[string]V) map[string]V {
@@ -361,9 +363,9 @@ func cp[V any](m map[string]V) map[string]V {
 	return r
 }
 
-func (t *btr) save() snap { return snap{cp(t.ty), cp(t.lean), cp(t.errSt), cp(t.def)} }
+func (t *btr) save() snap { return snap{cp(t.ty), cp(t.lean), cp(t.errSt), cp(t.def), cp(t.alias)} }
 func (t *btr) restore(s snap) {
-	t.ty, t.lean, t.errSt, t.def = cp(s.ty), cp(s.lean), cp(s.errSt), cp(s.def)
+	t.ty, t.lean, t.errSt, t.def, t.alias = cp(s.ty), cp(s.lean), cp(s.errSt), cp(s.def), cp(s.alias)
 }
 
 // path returns the normalised Go path of an identifier / field selector ("" when e is not a path), resolving
@@ -442,6 +444,9 @@ func (t *btr) exprTy(e ast.Expr) (string, string) {
 		if v.Name == "true" || v.Name == "false" {
 			return v.Name, "bool"
 		}
+		if a, ok := t.alias[v.Name]; ok { // a window of a slice that is written through: read its CURRENT contents
+			return t.hoist(fmt.Sprintf("GoSem.slice %s %s %s", t.read(a.base, "bytes", src), a.lo, a.hi)), "bytes"
+		}
 		if p, ty := t.path(v); p != "" {
 			if leanTy(ty) == "" {
 				t.fail("variable %q of type %s used as a value", src, ty)
@@ -469,7 +474,7 @@ func (t *btr) exprTy(e ast.Expr) (string, string) {
 		}
 	case *ast.IndexExpr:
 		b, bty := t.exprTy(v.X)
-		i, _ := t.exprTy(v.Index)
+		i := t.indexExpr(v.Index)
 		if bty != "bytes" {
 			t.fail("index of a non-byte-slice %q", src)
 		}
@@ -492,14 +497,14 @@ func (t *btr) exprTy(e ast.Expr) (string, string) {
 		case v.Low == nil && v.High == nil:
 			return b, "bytes"
 		case v.High == nil:
-			lo, _ := t.exprTy(v.Low)
+			lo := t.indexExpr(v.Low)
 			return t.hoist(fmt.Sprintf("GoSem.sliceFrom %s %s", b, lo)), "bytes"
 		case v.Low == nil:
-			hi, _ := t.exprTy(v.High)
+			hi := t.indexExpr(v.High)
 			return t.hoist(fmt.Sprintf("GoSem.sliceTo %s %s", b, hi)), "bytes"
 		default:
-			lo, _ := t.exprTy(v.Low)
-			hi, _ := t.exprTy(v.High)
+			lo := t.indexExpr(v.Low)
+			hi := t.indexExpr(v.High)
 			return t.hoist(fmt.Sprintf("GoSem.slice %s %s %s", b, lo, hi)), "bytes"
 		}
 	case *ast.CallExpr:
@@ -687,6 +692,18 @@ func (t *btr) callExpr(c *ast.CallExpr) (string, string) {
 // resolveCall: a call of a registered (translated) function. Returns the callee, the Lean arguments and the caller
 // paths that receive the callee's outs.
 func (t *btr) resolveCall(c *ast.CallExpr) (*bfunc, []string, []string) {
+	callee, args, outs, wins := t.resolveCallW(c)
+	for _, w := range wins {
+		if w != nil {
+			t.fail("a reslice is written through by %q in a position where that is not supported", text(c))
+		}
+	}
+	return callee, args, outs
+}
+
+// resolveCallW: as resolveCall; an out whose actual argument is a reslice `x[lo:hi]` (or a local alias of one) has
+// the path "" and a commit function that stores the window's new contents back into x.
+func (t *btr) resolveCallW(c *ast.CallExpr) (*bfunc, []string, []string, []func(int, string)) {
 	var callee *bfunc
 	var recvExpr ast.Expr
 	switch fn := c.Fun.(type) {
@@ -699,7 +716,7 @@ func (t *btr) resolveCall(c *ast.CallExpr) (*bfunc, []string, []string) {
 		}
 	}
 	if callee == nil {
-		return nil, nil, nil
+		return nil, nil, nil, nil
 	}
 	if len(c.Args) != len(callee.formals) {
 		t.fail("arity of call %q", text(c))
@@ -724,11 +741,31 @@ func (t *btr) resolveCall(c *ast.CallExpr) (*bfunc, []string, []string) {
 		}
 		return nil, ""
 	}
+	// windows (reslices / aliases) that the callee writes through: sliced once, used as argument and written back
+	type win struct {
+		view   string
+		commit func(int, string)
+	}
+	winOf := map[ast.Expr]*win{}
+	for _, o := range callee.sp.Outs {
+		if e, rest := actual(o); e != nil && rest == "" {
+			if _, isAlias := t.alias[text(e)]; isAlias || isReslice(e) {
+				if winOf[e] == nil {
+					v, cm := t.writeTarget(e)
+					winOf[e] = &win{v, cm}
+				}
+			}
+		}
+	}
 	var args []string
 	for _, p := range callee.sp.Params {
 		e, rest := actual(p.Go)
 		if e == nil {
 			t.fail("cannot bind parameter %s of %s", p.Go, callee.key())
+		}
+		if w := winOf[e]; w != nil && rest == "" {
+			args = append(args, w.view)
+			continue
 		}
 		if rest == "" {
 			s, _ := t.exprTy(e)
@@ -742,6 +779,7 @@ func (t *btr) resolveCall(c *ast.CallExpr) (*bfunc, []string, []string) {
 		args = append(args, t.read(bp+rest, "", text(e)+rest))
 	}
 	var outs []string
+	var wins []func(int, string)
 	for _, o := range callee.sp.Outs {
 		e, rest := actual(o)
 		if e == nil {
@@ -750,13 +788,85 @@ func (t *btr) resolveCall(c *ast.CallExpr) (*bfunc, []string, []string) {
 		if se, ok := e.(*ast.SliceExpr); ok && se.Low == nil && se.High == nil {
 			e = se.X // x[:] written through: x itself
 		}
+		if w := winOf[e]; w != nil && rest == "" {
+			outs = append(outs, "")
+			wins = append(wins, w.commit)
+			continue
+		}
 		bp, _ := t.path(e)
 		if bp == "" {
 			t.fail("out argument %q of %s is not a variable", text(e), callee.key())
 		}
 		outs = append(outs, bp+rest)
+		wins = append(wins, nil)
 	}
-	return callee, args, outs
+	return callee, args, outs, wins
+}
+
+func isReslice(e ast.Expr) bool {
+	se, ok := e.(*ast.SliceExpr)
+	return ok && (se.Low != nil || se.High != nil)
+}
+
+// sliceAlias: a local `x := base[lo:hi]` that is written through later (`putUint16(x, …)`): a window of base.
+type sliceAlias struct {
+	base   string // path of the underlying slice variable
+	lo, hi string // Lean values of the bounds, fixed when the alias was made
+}
+
+// indexExpr: an int expression used as an index / slice bound; a difference (ℤ) panics when negative.
+func (t *btr) indexExpr(e ast.Expr) string {
+	s, ty := t.exprTy(e)
+	if ty == "Int" {
+		return t.hoist("GoSem.natOfInt " + s)
+	}
+	return s
+}
+
+// writeTarget: a byte slice that is written through — a variable `p` / `p[:]`, a reslice `p[lo:]`, `p[lo:hi]`,
+// `p[:hi]` of a variable, or a local alias of a reslice.  Returns the current contents of the window and a function
+// that stores the window's new contents (same length: `GoSem.splice`) back into the variable.
+func (t *btr) writeTarget(e ast.Expr) (string, func(int, string)) {
+	if pe, ok := e.(*ast.ParenExpr); ok {
+		return t.writeTarget(pe.X)
+	}
+	if a, ok := t.alias[text(e)]; ok {
+		base := t.read(a.base, "bytes", text(e))
+		view := t.hoist(fmt.Sprintf("GoSem.slice %s %s %s", base, a.lo, a.hi))
+		return view, func(ind int, val string) {
+			t.assign(ind, a.base, "bytes", fmt.Sprintf("GoSem.splice %s %s (%s)", base, a.lo, val))
+		}
+	}
+	if se, ok := e.(*ast.SliceExpr); ok && !se.Slice3 {
+		p, ty := t.path(se.X)
+		if p == "" || ty != "bytes" {
+			t.fail("unsupported write target %q", text(e))
+		}
+		base := t.read(p, ty, text(se.X))
+		if se.Low == nil && se.High == nil {
+			return base, func(ind int, val string) { t.assign(ind, p, ty, val) }
+		}
+		lo, view := "0", ""
+		switch {
+		case se.High == nil:
+			lo = t.indexExpr(se.Low)
+			view = t.hoist(fmt.Sprintf("GoSem.sliceFrom %s %s", base, lo))
+		case se.Low == nil:
+			view = t.hoist(fmt.Sprintf("GoSem.sliceTo %s %s", base, t.indexExpr(se.High)))
+		default:
+			lo = t.indexExpr(se.Low)
+			view = t.hoist(fmt.Sprintf("GoSem.slice %s %s %s", base, lo, t.indexExpr(se.High)))
+		}
+		return view, func(ind int, val string) {
+			t.assign(ind, p, ty, fmt.Sprintf("GoSem.splice %s %s (%s)", base, lo, val))
+		}
+	}
+	p, ty := t.path(e)
+	if p == "" || ty != "bytes" {
+		t.fail("unsupported write target %q", text(e))
+	}
+	cur := t.read(p, ty, text(e))
+	return cur, func(ind int, val string) { t.assign(ind, p, ty, val) }
 }
 
 // ---- statements ----
@@ -855,6 +965,15 @@ func (t *btr) lhsPath(e ast.Expr, define bool, ty string) string {
 
 func (t *btr) declaredHere(name string) bool { return false }
 
+func (t *btr) isOut(path string) bool {
+	for _, o := range t.f.sp.Outs {
+		if o == path {
+			return true
+		}
+	}
+	return false
+}
+
 func (t *btr) block(ind int, list []ast.Stmt, k func(int)) {
 	if len(list) == 0 {
 		if k == nil {
@@ -929,20 +1048,50 @@ func (t *btr) block(ind int, list []ast.Stmt, k func(int)) {
 			return
 		}
 		if c, ok := v.X.(*ast.CallExpr); ok && text(c.Fun) == "copy" && len(c.Args) == 2 {
-			dst := c.Args[0]
-			if se, ok := dst.(*ast.SliceExpr); ok && se.Low == nil && se.High == nil {
-				dst = se.X
-			}
-			p, ty := t.path(dst)
 			src, sty := t.exprTy(c.Args[1])
-			if p == "" || ty != "bytes" || sty != "bytes" {
+			if sty != "bytes" {
 				t.fail("unsupported %q", text(s))
 			}
-			cur := t.read(p, ty, text(dst))
+			cur, commit := t.writeTarget(c.Args[0])
 			t.flush(ind)
-			t.assign(ind, p, ty, fmt.Sprintf("GoSem.copy %s %s", cur, src))
+			commit(ind, fmt.Sprintf("GoSem.copy %s %s", cur, src))
 			next(ind)
 			return
+		}
+		// binary.BigEndian.PutUint16(dst, v) / PutUint32: a write through dst
+		if c, ok := v.X.(*ast.CallExpr); ok && len(c.Args) == 2 && (text(c.Fun) == "binary.BigEndian.PutUint16" || text(c.Fun) == "binary.BigEndian.PutUint32") {
+			w := "u" + strings.TrimPrefix(text(c.Fun), "binary.BigEndian.PutUint")
+			val, vty := t.exprTy(c.Args[1])
+			if vty != w && vty != "untyped" {
+				val = t.convertTo(val, vty, w, text(c.Args[1]))
+			}
+			cur, commit := t.writeTarget(c.Args[0])
+			nv := t.hoist(fmt.Sprintf("GoSem.putUint%s %s %s", w[1:], cur, val))
+			t.flush(ind)
+			commit(ind, nv)
+			next(ind)
+			return
+		}
+		// f(…) as a statement: a translated function without error result whose outs are written back
+		// (its other results are dropped)
+		if c, ok := v.X.(*ast.CallExpr); ok {
+			if callee, args, outs, commits := t.resolveCallW(c); callee != nil && !callee.hasErr {
+				comps, _ := callee.resultComponents()
+				var pat []string
+				for i := range outs {
+					pat = append(pat, fmt.Sprintf("w%d", i+1))
+				}
+				for i := len(outs); i < len(comps); i++ {
+					pat = append(pat, "_")
+				}
+				t.flush(ind)
+				t.line(ind, fmt.Sprintf("let %s ← %s %s", tupleVal(pat), callee.sp.Name, strings.Join(args, " ")))
+				for i := range outs {
+					commits[i](ind, pat[i])
+				}
+				next(ind)
+				return
+			}
 		}
 		t.fail("unsupported statement %q", text(s))
 	case *ast.AssignStmt:
@@ -1075,7 +1224,7 @@ func (t *btr) assignStmt(ind int, v *ast.AssignStmt, rest []ast.Stmt, k func(int
 	if len(v.Rhs) == 1 {
 		if c, ok := v.Rhs[0].(*ast.CallExpr); ok {
 			nPre, nTmp := len(t.pre), t.tmp
-			callee, args, outs := t.resolveCall(c)
+			callee, args, outs, wins := t.resolveCallW(c)
 			if callee != nil && !(callee.hasErr || len(v.Lhs) > 1 || len(outs) > 0) {
 				// a single-valued call that cannot fail is an expression (translated below): undo the argument binds
 				t.pre, t.tmp, callee = t.pre[:nPre], nTmp, nil
@@ -1086,11 +1235,17 @@ func (t *btr) assignStmt(ind int, v *ast.AssignStmt, rest []ast.Stmt, k func(int
 				}
 				var pat []string
 				var assigns [][2]string
-				for _, o := range outs {
+				for i, o := range outs {
+					if o == "" {
+						pat = append(pat, fmt.Sprintf("w%d", i+1))
+						continue
+					}
 					pat = append(pat, sanitize(o))
 				}
 				for i, o := range outs {
-					assigns = append(assigns, [2]string{o, callee.outTy[i]})
+					if o != "" {
+						assigns = append(assigns, [2]string{o, callee.outTy[i]})
+					}
 				}
 				errName := ""
 				for i, l := range v.Lhs {
@@ -1135,6 +1290,11 @@ func (t *btr) assignStmt(ind int, v *ast.AssignStmt, rest []ast.Stmt, k func(int
 					}
 					t.def[a[0]] = true
 				}
+				for i, w := range wins {
+					if w != nil {
+						w(ind, fmt.Sprintf("w%d", i+1))
+					}
+				}
 				if errName != "" {
 					t.errSt[errName] = "nil"
 				}
@@ -1157,6 +1317,57 @@ func (t *btr) assignStmt(ind int, v *ast.AssignStmt, rest []ast.Stmt, k func(int
 	}
 	if len(v.Lhs) != 1 || len(v.Rhs) != 1 {
 		t.fail("unsupported multi-assignment %q", text(v))
+	}
+	// b[i] = v: a write through the byte slice b
+	if ix, ok := v.Lhs[0].(*ast.IndexExpr); ok && v.Tok == token.ASSIGN {
+		if p, ty := t.path(ix.X); p != "" && ty == "bytes" {
+			i := t.indexExpr(ix.Index)
+			val, vty := t.exprTy(v.Rhs[0])
+			if leanTy(vty) != "Nat" && vty != "untyped" {
+				t.fail("unsupported %q", text(v))
+			}
+			nv := t.hoist(fmt.Sprintf("GoSem.setIndex %s %s %s", t.read(p, ty, text(ix.X)), i, val))
+			t.flush(ind)
+			t.assign(ind, p, ty, nv)
+			next(ind)
+			return
+		}
+	}
+	// n := copy(dst, src)
+	if c, ok := v.Rhs[0].(*ast.CallExpr); ok && text(c.Fun) == "copy" && len(c.Args) == 2 {
+		src, sty := t.exprTy(c.Args[1])
+		if sty != "bytes" {
+			t.fail("unsupported %q", text(v))
+		}
+		cur, commit := t.writeTarget(c.Args[0])
+		np := t.lhsPath(v.Lhs[0], define, "int")
+		t.flush(ind)
+		if np != "_" {
+			t.assign(ind, np, "int", fmt.Sprintf("(min (GoSem.len %s) (GoSem.len %s))", cur, src))
+		}
+		commit(ind, fmt.Sprintf("GoSem.copy %s %s", cur, src))
+		next(ind)
+		return
+	}
+	// x := base[lo:hi] where the function writes through base (base is one of its outs): x is a WINDOW of base, not
+	// a copy — reads of x see the current contents of base, writes through x go to base
+	if se, ok := v.Rhs[0].(*ast.SliceExpr); ok && define && !se.Slice3 && se.Low != nil && se.High != nil {
+		if id, ok := v.Lhs[0].(*ast.Ident); ok {
+			if bp, bty := t.path(se.X); bp != "" && bty == "bytes" && t.isOut(bp) {
+				if _, exists := t.ty[id.Name]; exists {
+					t.fail("alias %q redeclared", id.Name)
+				}
+				lo, hi := t.indexExpr(se.Low), t.indexExpr(se.High)
+				t.flush(ind)
+				t.line(ind, fmt.Sprintf("let %s_lo := %s", id.Name, lo))
+				t.line(ind, fmt.Sprintf("let %s_hi := %s", id.Name, hi))
+				t.line(ind, fmt.Sprintf("let _ ← GoSem.slice %s %s_lo %s_hi", t.read(bp, bty, text(se.X)), id.Name, id.Name))
+				t.ty[id.Name] = "bytes"
+				t.alias[id.Name] = sliceAlias{bp, id.Name + "_lo", id.Name + "_hi"}
+				next(ind)
+				return
+			}
+		}
 	}
 	// struct copy `r.ResourceHdr = hdr`: every field of hdr that has a value
 	if v.Tok == token.ASSIGN {
@@ -1399,7 +1610,7 @@ func translateBytes(f *bfunc, reg map[string]*bfunc) (res string, err error) {
 			panic(r)
 		}
 	}()
-	t := &btr{f: f, reg: reg, pkg: f.pkg, ty: map[string]string{}, def: map[string]bool{}, lean: map[string]string{}, errSt: map[string]string{}, out: &strings.Builder{}}
+	t := &btr{f: f, reg: reg, pkg: f.pkg, ty: map[string]string{}, def: map[string]bool{}, lean: map[string]string{}, errSt: map[string]string{}, out: &strings.Builder{}, alias: map[string]sliceAlias{}}
 	if f.recv != "" {
 		t.ty[f.recv] = f.recvTy
 	}
@@ -1465,8 +1676,13 @@ func translateBytes(f *bfunc, reg map[string]*bfunc) (res string, err error) {
 			t.fail("range loop")
 		}
 	}
+	// a function without results may end without a return statement: its outs are the result
+	var fallOff func(int)
+	if len(f.results) == 0 {
+		fallOff = func(ind int) { t.line(ind, "pure "+tupleVal(t.outVals("the end of the function"))) }
+	}
 	if loopAt < 0 {
-		t.block(1, body, nil)
+		t.block(1, body, fallOff)
 		return fmt.Sprintf("/-- %s -/\ndef %s%s : Res (%s) := do\n%s", doc, f.sp.Name, t.sig(), rt, t.out.String()), nil
 	}
 	// ---- loop ----
